@@ -11,6 +11,22 @@ chk("C07", "model_checking",
     "exhaustive enumeration of environment answers (read chunkings) on the real code against a reference splitter",
     "DESIGN.md §5 C07")
 
+chk("C01", "model_checking",
+    "Bounded-exhaustive enumeration of a feature-product program grammar (every lvalue kind x assignment/op=/++/-- x rhs x statement/expression form x scope; every comparison over 14 operand types x 11 condition constructs; concatenation chains in every grouping; user-call shapes; builtins; loop nests with break/continue at every placement; pattern/getline/IO forms; thorough: all ordered pairs of 50 statements), each program run on the real compiler+VM and on an independent tree-walking reference evaluator (stdout, files written, exit status, error outcome must agree), plus metamorphic groups of equivalent spellings that must behave identically.",
+    "Reference evaluator shares only lexer+parser with the implementation and is validated on every run against the repository's own test table (disagreement = harness error). Defects needing more than the stated program sizes are out of reach.",
+    "complete enumeration of a program grammar fragment on the real code, differential against a reference model + metamorphic equivalence",
+    "DESIGN.md §5 C01")
+chk("C09", "model_checking",
+    "Complete product of conversions x all 32 flag subsets x widths x precisions (literal and *) x 64 argument values through sprintf and printf, byte and character mode, compared with the C library's snprintf (helper process) on arguments converted the AWK way by the harness; plus pairs of conversions, %%, too-few-arguments and unknown-conversion error cases for every byte, and print under 12 OFMT values.",
+    "glibc snprintf is the oracle; combinations the C standard leaves undefined are no-crash only (listed in the evidence assumptions).",
+    "complete enumeration of format specifications x argument values against the C library",
+    "DESIGN.md §5 C09")
+chk("C17", "model_checking",
+    "Signatures synthesised with reflect.FuncOf/MakeFunc: every documented kind in every parameter position (<=3, thorough 4), variadic on/off, all result shapes, wide (6-9 params), defined types, invalid shapes, keyword names, several invalid at once; each called with every argument count x 81 AWK values; received Go values, results, error propagation, set-up rejection and parse-time arity errors compared with an independent conversion table; map iteration orders of Funcs driven through the permutation hook.",
+    "Out-of-range float->integer conversions are no-panic only; conversion table written from the Config.Funcs documentation.",
+    "complete enumeration of Go function signatures x argument counts x values on the real code against a conversion table",
+    "DESIGN.md §5 C17")
+
 NOT_YET = "check not built yet in this round (work in progress; see DESIGN.md §5 for the planned exploration)"
 ALL = ["C%02d" % i for i in range(1, 21)]
 
